@@ -2,6 +2,7 @@ package mon
 
 import (
 	"fmt"
+	at "github.com/DanielSvub/anytype"
 	"strings"
 
 	"verifharness/internal/drive"
@@ -68,6 +69,50 @@ func c03Check(c *fw.Ctx, tree *spec.Spec, text string, crossCheck bool) {
 			sig = "parsed-number-value-differs"
 		}
 		c.Violate(sig, in(), "same tree as the reference decoder: "+spec.Trunc(tree.Canon(), 1500), d+"\nparsed = "+spec.Trunc(w.Canon(), 1500))
+		return
+	}
+	if tree.Size() > 400 {
+		return
+	}
+	// what a document means does not depend on what happened to an earlier result: the first result is written over at
+	// every level, then the same text is parsed again
+	drive.Protect(func() { c03Scribble(parsed, 0) })
+	again, err2, pan2 := parseRoot(tree.K, text)
+	if pan2 != "" || err2 != nil || again == nil {
+		c.Violate("valid-document-rejected", in()+"\n(second parse of the same text, after the first result was modified)", "parsed without error", fmt.Sprintf("error: %v panic: %s", err2, pan2))
+		return
+	}
+	c.Count("documents_parsed_again_after_the_result_was_modified")
+	w2, werr2 := drive.Walk(again)
+	if werr2 != nil {
+		c.Violate("parsed-unwalkable", in(), "consistent container", werr2.Error())
+		return
+	}
+	if d := drive.Diff(w2, tree); d != "" {
+		c.Violate("second-parse-differs", in()+"\n(second parse of the same text, after the first result was modified)", "the same tree as the first time: "+spec.Trunc(tree.Canon(), 1500), d+"\nparsed = "+spec.Trunc(w2.Canon(), 1500))
+	}
+}
+
+// c03Scribble overwrites a parsed result at every level (new elements / fields, first entries replaced).
+func c03Scribble(v any, depth int) {
+	if depth > 60 {
+		return
+	}
+	switch x := v.(type) {
+	case at.List:
+		x.ForEachObject(func(o at.Object) { c03Scribble(o, depth+1) })
+		x.ForEachList(func(l at.List) { c03Scribble(l, depth+1) })
+		if x.Count() > 0 {
+			x.Replace(0, "scribbled")
+		}
+		x.Add("scribbled", 7)
+	case at.Object:
+		x.ForEachObject(func(o at.Object) { c03Scribble(o, depth+1) })
+		x.ForEachList(func(l at.List) { c03Scribble(l, depth+1) })
+		if ks := x.Keys(); ks.Count() > 0 {
+			x.Set(ks.GetString(0), "scribbled")
+		}
+		x.Set("scribbled", 7)
 	}
 }
 
